@@ -902,6 +902,15 @@ impl<'a> Harness<'a> {
 					Label::Refuse(l) => {
 						let group = if l.starts_with("invalid") { "invalid" } else { l };
 						self.run.count(&format!("refused.{}", group), 1);
+						let ec = eclass(e);
+						let matching = match group {
+							"low_fee" => ec == "LowFeeTransaction",
+							"overweight" => ec.contains("TooHeavy"),
+							_ => ec.starts_with("InvalidTx"),
+						};
+						if matching {
+							self.run.count(&format!("refused_for_that_reason.{}", group), 1);
+						}
 						self.run.count(&format!("refused_detail.{}.{}", l, eclass(e)), 1);
 					}
 					Label::Valid => {
@@ -2379,7 +2388,7 @@ fn main() {
 	run.require("i3_evaluations_nonempty_stempool", c("i3_evaluations_nonempty_stempool"), 100 * scale);
 	for k in KINDS {
 		let min = match *k {
-			"reorg_lower" | "overweight" | "agg_low_remainder" | "stem_resubmit" | "expire" => 5 * scale,
+			"reorg_lower" | "overweight" | "agg_low_remainder" | "stem_resubmit" | "expire" | "fluff" => 5 * scale,
 			_ => 15 * scale,
 		};
 		run.require(&format!("op.{}", k), c(&format!("op.{}", k)), min);
@@ -2397,9 +2406,10 @@ fn main() {
 		5 * scale,
 	);
 	run.require("evictions", c("evictions"), 10 * scale);
-	run.require("refused.low_fee", c("refused.low_fee"), 20 * scale);
-	run.require("refused.overweight", c("refused.overweight"), 5 * scale);
-	run.require("refused.invalid", c("refused.invalid"), 20 * scale);
+	for (g, m) in [("low_fee", 20u64), ("overweight", 5), ("invalid", 20)] {
+		let n = format!("refused_for_that_reason.{}", g);
+		run.require(&n, c(&n), m * scale);
+	}
 	run.require("i5_dry_runs", c("i5_dry_runs"), 100 * scale);
 	run.finish();
 }
